@@ -263,4 +263,4 @@ def harnesses(world, tier, seed):
     if not q:
         hs.append(ZoneLookup(name='lookup-3rec', nrec=3, maxdepth=1, qdepth=2, apexes=(1,), types=('A', 'NS', 'CNAME'),
                    bounds={'apex': 'z.', 'records': '3, owner depth 0..1', 'query': 'depth 0..2'}, expected_classes=('answer', 'cname', 'referral', 'nameerror')))
-    return hs, (480 if q else 2700), None
+    return hs, (1500 if q else 5400), None
